@@ -39,15 +39,15 @@ claim("C11",
       "DESIGN.md §5 C11", cat="translation_validation", technique="translation validation by bounded symbolic execution of planner.Plan + core operators (go/ssa), SMT equality of result rows (cvc5)")
 claim("C09",
       "orderedRows.Less equals the lexicographic comparison of the key list for two fully symbolic rows and every key list up to length L over {_time, f1, f2, d1, d2} x {asc, desc}; the real sorter (sort.Sort) emits a sorted permutation; Limit(Offset(src,m),n) emits exactly rows m..min(k,m+n)-1 for symbolic m, n.",
-      BOUND + "L<=2 keys quick (3 thorough), 3 rows for the sorter, k<=4 source rows; NaN sort keys, dims of different Go types between rows, and LIMIT 0 (treated as no limit by the planner, noted as D12) are outside.",
+      BOUND + "L<=2 keys quick (3 thorough), 3 rows for the sorter, k<=4 source rows, every plan iterated twice; (C09.P) ORDER BY + LIMIT n OFFSET m for n in 0..3, m in {none,0,1,2} through the real planner equals that slice of the unlimited ordered result; NaN sort keys and dims of different Go types between rows are outside.",
       "DESIGN.md §5 C09")
 claim("C10",
       "Routing agreement on the real code: for a WAL entry with symbolic dims the leader's mapPartitionRequest sends exactly one result with 0<=pid<P and, among P follower tables, table.insert(isFollower) accepts the entry in exactly the partition the leader computed.",
       BOUND + "P in 1..5, partition keys in {none, {a}, {b,a}}, dims a (2-byte string) and b (int64) present or absent; murmur3 replaced by a deterministic polynomial hash (only determinism and Reset are used); plan equivalence is the C11.V harness (also run here) and partitionRowMapper is decided over field-list pairs of a pool (C10.M); live nodes and gRPC fan-out are outside.",
       "DESIGN.md §5 C10")
 claim("C12",
-      "Follower-side dedup of the real doFollowLeaders callback: with two tables whose prior offsets are symbolic and three deliveries with symbolic offsets (replays, duplicates, gaps are order relations chosen by the solver), each table is handed an entry iff it is After everything that table accepted, in order, independently; makeFollows never requests an earliest offset above a table's own; Offset order lemmas as in C02.",
-      BOUND + "one fixed run-to-block schedule (T3): deliveries first, then the per-table consumers; the leader-side filter (processFollowers), restarts from crash images and redundant-follower convergence are outside.",
+      "Follower-side dedup of the real doFollowLeaders callback: with two tables whose prior offsets are symbolic and three deliveries with symbolic offsets (replays, duplicates, gaps are order relations chosen by the solver), each table is handed an entry iff it is After everything that table accepted, in order, independently; makeFollows never requests an earliest offset above a table's own; (C12.S) the real Server.followSource reconnect loop, with the stream breaking after solver-chosen numbers of deliveries and an insert failing at a chosen delivery, re-Follows exactly at the last successfully inserted offset, so the accepted entries are 1,2,3,... without gap or repetition; Offset order lemmas as in C02.",
+      BOUND + "one fixed run-to-block schedule (T3): deliveries first, then the per-table consumers; 3 connections; the leader-side follower bookkeeping (processFollowers / onFollowerJoined, inline next to live WAL readers), restarts from crash images and redundant-follower convergence are outside.",
       "DESIGN.md §5 C12")
 claim("C13",
       "Incompleteness is reported: real web.handler.doQuery returns an error whenever its source scan ended early (source failure at any row, or its own response-size callback), and real fileStore.iterate returns the callback's error / stops exactly at the chosen row in the file phase and in the memstore phase.",
